@@ -263,7 +263,10 @@ func c12Isolation(fixedNames bool) {
 	info2Val, pos2Val := kv.data[info2Key], kv.data[pos2Key]
 	// Known finding C12-nested-root: a tenant whose root path lies below another tenant's
 	// reserved sub-tree (root2 = root1/task_info[/...] or root1/task_position[/...])
-	nested := vOr(strings.HasPrefix(r2.root+"/", r1.root+"/"+taskInfoPrefix+"/"), strings.HasPrefix(r2.root+"/", r1.root+"/"+taskPositionPrefix+"/"))
+	// (either tenant's root may be the inner one: the inner tenant's scans also see records of the
+	// outer tenant whose task id is one of the reserved words)
+	nested := vOr(vOr(strings.HasPrefix(r2.root+"/", r1.root+"/"+taskInfoPrefix+"/"), strings.HasPrefix(r2.root+"/", r1.root+"/"+taskPositionPrefix+"/")),
+		vOr(strings.HasPrefix(r1.root+"/", r2.root+"/"+taskInfoPrefix+"/"), strings.HasPrefix(r1.root+"/", r2.root+"/"+taskPositionPrefix+"/")))
 	st := c12Stores(kv, r1.root)
 	ctx := context.Background()
 	infoTouched, posTouched := false, false // may record 2 legitimately be affected?
